@@ -62,6 +62,8 @@ def dec(v):
         return None
     if isinstance(v, dict) and "bigdigits" in v:
         return v["digit"] * v["bigdigits"]
+    if isinstance(v, dict) and "bigint" in v:
+        return v["sign"] * 10 ** v["bigint"]  # a Python int beyond what str() / f-strings convert by default
     if isinstance(v, list):
         return [dec(x) for x in v]
     return v
@@ -167,6 +169,7 @@ NON_MONTHS = [
     "0x1", "1_0", "jan # feb", "{}", '""', "month", "décembre", "juni", "ſep", "Auguſt", "ｊａｎ", "ｍａｙ", "jan\u0301", "ȷan", "İan", " 7 ", "+3", "1_2", "0_9", "1 2", "٠٧",
     [], ["jan"], [1], {"none": 1}, {"nameparts": {"first": ["jan"], "von": [], "last": ["May"], "jr": []}},
     1.0, 5.5,
+    {"bigint": 5000, "sign": 1}, {"bigint": 4300, "sign": -1}, {"bigint": 4299, "sign": 1}, {"bigint": 20000, "sign": 1},
     {"bigdigits": 4300, "digit": "1"}, {"bigdigits": 6000, "digit": "9"}, {"bigdigits": 60, "digit": "0"},
 ]
 UNSPECIFIED = ["１", "²", "٣", "①", "1２", "१२", "⑫", "Ⅻ", "½", "１３"]
